@@ -304,6 +304,18 @@ func (e *Env) binary(n *EBinary) (Val, types.Type) {
 		}
 		e.fail("constant operator %s", n.Op)
 	}
+	// string value against the empty literal
+	if es, ok := b.(*EStr); ok {
+		if sa, ok := a.(*StructVal); ok && es.V == "" && len(sa.N) == 2 && sa.N[1] == "len" {
+			z := Eq(sa.F[1].(Term), zeroLike(sa.F[1].(Term)))
+			switch n.Op {
+			case "==":
+				return z, nil
+			case "!=":
+				return Not(z), nil
+			}
+		}
+	}
 	// strings / structs: == and != component-wise (identity of representation)
 	if sa, ok := a.(*StructVal); ok {
 		sb, ok := b.(*StructVal)
@@ -471,6 +483,14 @@ func (e *Env) sel(n *ESel) (Val, types.Type) {
 					for i := 0; i < stt.NumFields(); i++ {
 						if stt.Field(i).Name() == n.Name {
 							addr := Add(x, BVInt(e.r.fieldOffset(stt, i), 64, false))
+							if _, ok := e.r.fieldComps("", stt, i); ok {
+								fp := &FieldPtr{Base: x, S: stt, Key: structKey(pt.Elem()), Idx: i, Addr: addr}
+								return e.r.loadField(e.st, fp), stt.Field(i).Type()
+							}
+							if _, isS := stt.Field(i).Type().Underlying().(*types.Struct); isS {
+								// nested struct: a typed pointer to it
+								return addr, types.NewPointer(stt.Field(i).Type())
+							}
 							return e.r.loadAt(e.st, addr, stt.Field(i).Type()), stt.Field(i).Type()
 						}
 					}
